@@ -21,9 +21,11 @@ func checkC09(c *Ctx) {
 	c.Clause("a bucket is removed from the map only when it is full after crediting its pending refill (eviction grants no tokens)")
 	c.Clause("eviction removes and marks the bucket under the bucket's own lock and Allow re-checks the mark after locking, so nobody spends from an evicted bucket next to its replacement; the sweep changes no bucket it keeps (no refill, no clock update)")
 	c.Clause("the bucket Allow spends from is the map's shared object (no copy), keyed by the caller's address string as given")
+	c.Clause("the limiter Helios builds from its configuration gets max_tokens and the refill period from the configuration fields of the same meaning")
 	c.NotDecided("the sliding-window bound max+floor(T/refill)+1 over arrival histories; idle-refill counts")
 
 	// 1. lock discipline
+	c.constructorArgsFromConfig("NewTokenBucketRateLimiter")
 	lockDiscipline(c, func(k string) bool { return strings.HasPrefix(k, "ratelimiter.bucket.") })
 
 	allow := p.Fn("internal/ratelimiter", "TokenBucketRateLimiter", "Allow")
